@@ -10,6 +10,9 @@ cp -f /repo/go.sum go.sum
 [ "$(cat /proc/sys/fs/inotify/max_user_instances 2>/dev/null || echo 0)" -lt 4096 ] && echo 8192 > /proc/sys/fs/inotify/max_user_instances 2>/dev/null || true
 go build -o .build/bin/vgen ./cmd/vgen
 .build/bin/vgen -repo /repo -out "$PWD/gen/fsnotify" >/dev/null
+go build -o .build/bin/vxgen ./cmd/vxgen
+.build/bin/vxgen -repo /repo -out "$PWD/gen" >/dev/null
 go build -tags verif -o .build/bin/vharn.setup ./cmd/vharn
-rm -f .build/bin/vharn.setup
+go build -tags verif -o .build/bin/vpure.setup ./cmd/vpure
+rm -f .build/bin/vharn.setup .build/bin/vpure.setup
 echo setup ok
